@@ -732,6 +732,7 @@ func scanOutLevel(c *core.Ctx) []ob {
 			elems map[string]bool // textual bases of the elements whose Level() enters
 			viaInit bool
 			pos   token.Pos
+			text  string // for an anonymous working level: the Min(...) expression itself
 		}
 		var defs []ldef
 		levelBases := func(e ast.Expr) map[string]bool {
@@ -771,7 +772,7 @@ func scanOutLevel(c *core.Ctx) []ob {
 					if o == nil {
 						o = info.Uses[id]
 					}
-					defs = append(defs, ldef{o, bs, false, as.Pos()})
+					defs = append(defs, ldef{o, bs, false, as.Pos(), ""})
 				}
 			} else if len(as.Rhs) == 1 && len(as.Lhs) == 3 {
 				call, ok := unparen(as.Rhs[0]).(*ast.CallExpr)
@@ -792,12 +793,37 @@ func scanOutLevel(c *core.Ctx) []ob {
 						last = sel.X
 					}
 				}
-				defs = append(defs, ldef{o, map[string]bool{exprString(last): true}, true, as.Pos()})
+				defs = append(defs, ldef{o, map[string]bool{exprString(last): true}, true, as.Pos(), ""})
 			}
 			return true
 		})
 		if strings.HasPrefix(fd.Name.Name, "InitOutput") {
 			return
+		}
+		// anonymous working levels: Min(x.Level(), y.Level()) used directly as an argument
+		{
+			named := map[token.Pos]bool{}
+			ast.Inspect(fd.Body, func(x ast.Node) bool {
+				if as, ok := x.(*ast.AssignStmt); ok {
+					for _, r := range as.Rhs {
+						named[unparen(r).Pos()] = true
+					}
+				}
+				return true
+			})
+			ast.Inspect(fd.Body, func(x ast.Node) bool {
+				call, ok := x.(*ast.CallExpr)
+				if !ok || calleeName(info, call) != "Min" {
+					return true
+				}
+				if named[call.Pos()] {
+					return false
+				}
+				if bs := levelBases(call); len(bs) >= 2 {
+					defs = append(defs, ldef{nil, bs, false, call.Pos(), exprString(call)})
+				}
+				return false
+			})
 		}
 		paramNames := map[string]bool{}
 		if fd.Type.Params != nil {
@@ -809,7 +835,7 @@ func scanOutLevel(c *core.Ctx) []ob {
 		}
 		isEncryptor := strings.Contains(core.RecvTypeName(fd), "Encryptor")
 		for _, d := range defs {
-			if d.obj == nil {
+			if d.obj == nil && d.text == "" {
 				continue
 			}
 			// one of the elements must be an output of the function
@@ -840,6 +866,14 @@ func scanOutLevel(c *core.Ctx) []ob {
 					}
 					return defNode == nil
 				})
+				if defNode == nil {
+					ast.Inspect(fd.Body, func(x ast.Node) bool {
+						if call, ok := x.(*ast.CallExpr); ok && call.Pos() == d.pos {
+							defNode = call
+						}
+						return defNode == nil
+					})
+				}
 				for p := pm[defNode]; p != nil; p = pm[p] {
 					if _, ok := p.(*ast.CaseClause); ok {
 						scope = p
@@ -906,7 +940,10 @@ func scanOutLevel(c *core.Ctx) []ob {
 				}
 				mentions := false
 				ast.Inspect(call.Args[len(call.Args)-1], func(y ast.Node) bool {
-					if id, ok := y.(*ast.Ident); ok && info.Uses[id] == d.obj {
+					if id, ok := y.(*ast.Ident); ok && d.obj != nil && info.Uses[id] == d.obj {
+						mentions = true
+					}
+					if e, ok := y.(ast.Expr); ok && d.text != "" && exprString(e) == d.text {
 						mentions = true
 					}
 					return true
@@ -916,7 +953,11 @@ func scanOutLevel(c *core.Ctx) []ob {
 				}
 				return true
 			})
-			key := fmt.Sprintf("OUTLEVEL:%s#%s@%s", fkey, d.obj.Name(), strings.Join(sortedKeys(d.elems), ","))
+			lname := d.text
+			if d.obj != nil {
+				lname = d.obj.Name()
+			}
+			key := fmt.Sprintf("OUTLEVEL:%s#%s@%s", fkey, lname, strings.Join(sortedKeys(d.elems), ","))
 			props := metaProps(fkey)
 			if strings.Contains(fkey, "Encryptor") {
 				props = []string{"C03"}
@@ -931,7 +972,7 @@ func scanOutLevel(c *core.Ctx) []ob {
 					out = append(out, withProps(okOb("OUTLEVEL", key, c.Rel(d.pos), "the element is resized to the working level at "+found, true), props...))
 				}
 			} else {
-				out = append(out, withProps(violOb("OUTLEVEL", key, c.Rel(d.pos), fmt.Sprintf("%s computes the working level %s from the levels of %s at %s but never resizes any of them to it: the output keeps its previous level while only the limbs up to %s are written", fkey, d.obj.Name(), strings.Join(sortedKeys(d.elems), ", "), c.Rel(d.pos), d.obj.Name())), props...))
+				out = append(out, withProps(violOb("OUTLEVEL", key, c.Rel(d.pos), fmt.Sprintf("%s computes the working level %s from the levels of %s at %s but never resizes any of them to it: the output keeps its previous level while only the limbs up to %s are written", fkey, lname, strings.Join(sortedKeys(d.elems), ", "), c.Rel(d.pos), lname)), props...))
 			}
 		}
 	})
